@@ -365,10 +365,18 @@ class C04(VectorProperty):
 
 class C05(VectorProperty):
     wf = True
+
+    def jobs(self, tier):
+        return (VectorProperty.jobs(self, tier)
+                + lemma_jobs("lemmas.spelling", "perm", [{"version": v} for v in ("2", "3", "4")])
+                + lemma_jobs("lemmas.spelling", "spelling", [{"version": v, "mode": m} for v in ("2", "3", "4") for m in ("spelled", "minimal")]))
+
     id = "C05"
     native = "C05"
     trusted = ("A0", "A1", "A2", "A7", "FD")
-    technique = "parse contract (map is a function of the field set) + accessor postconditions over the abstract view only"
+    technique = ("parse contract (the metric map is the one the field set denotes) + lemma L-perm (permuted fields denote the same map, "
+                 "quantified, z3) + accessor postconditions stated over the map only + lemma L-spelling (the fully spelled-out and the "
+                 "minimal spelling of a map give the same specification value for every observable)")
     contracts = [("contracts.parse", PARSE_V23)] + split_by_module(acc(
         ["scores", "severities", "clean_vector", "rh_vector", "temporal_vector", "environmental_vector", "__eq__", "__hash__"]))
 
